@@ -124,3 +124,62 @@ Definition check_last (k : chain * obs) : N :=
             | _, _ => false
             end in
   code ok ok.
+
+(* ---------------------------------------------------------------- two-node sync runs *)
+From LE Require Import Sync.Converge.
+
+(* observation: chain after, peer banned, Sync returned an error, temp blocks (height, code) after, a block at or
+   below the finalized height changed, the whole database equals the one before *)
+Definition sync_obs : Type := list N * bool * bool * list (N * N) * bool * bool.
+(* fast sync?, chain before, finalized height, peer's common-block answer, delivered blocks, ending (0 ok, 1 error,
+   2 statelessly invalid block), valid links (parent, block), target height, 2 * validators, observation *)
+Definition sync_case : Type := bool * list N * N * option N * list N * N * list (N * N) * N * N * sync_obs.
+
+Definition link_valid (links : list (N * N)) (c : list N) (b : N) : bool :=
+  match rev c with
+  | p :: _ => existsb (fun l => (fst l =? p) && (snd l =? b)) links
+  | [] => false
+  end.
+
+Fixpoint chain_valid (links : list (N * N)) (c : list N) (bs : list N) : bool :=
+  match bs with [] => true | b :: r => link_valid links c b && chain_valid links (c ++ [b]) r end.
+
+Definition obs_temp_lookup (h : nat) (t : list (N * N)) : option N :=
+  match find (fun kv => Nat.eqb (N.to_nat (fst kv)) h) t with Some kv => Some (snd kv) | None => None end.
+
+Definition oN_eqb (a b : option N) : bool :=
+  match a, b with Some x, Some y => x =? y | None, None => true | _, _ => false end.
+
+Definition check_sync (k : sync_case) : N :=
+  let '(fast, before, fin, common, delivered, e, links, th, r2, o) := k in
+  let '(after, banned_o, err_o, temp_o, lowdel, dbeq) := o in
+  let n0 := {| chain := before; temp := []; finalized := N.to_nat fin; banned := false |} in
+  let en := match e with 0 => EndOk | 1 => EndErr | _ => EndInvalid end in
+  let '(n', out) := if fast then fast_sync (link_valid links) false n0 common delivered en (N.to_nat th) (N.to_nat r2)
+                    else block_sync (link_valid links) n0 common delivered en in
+  let synced := match out with Synced => true | _ => false end in
+  let hs := seq 0 (length before + length delivered + 2) in
+  let agree :=
+    list_eqb after (chain n') && Bool.eqb banned_o (Converge.banned n') && Bool.eqb err_o (negb synced) &&
+    forallb (fun h => oN_eqb (obs_temp_lookup h temp_o) (Converge.lookup h (Converge.temp n'))) hs in
+  (* declarative oracle: the three clauses of the property text *)
+  let f := N.to_nat fin in
+  let keep_final := negb lowdel && list_eqb (firstn (S f) after) (firstn (S f) before) in
+  let spec :=
+    match common with
+    | Some cid =>
+        match Converge.index_of cid before with
+        | Some h =>
+            let base := firstn (S h) before in
+            let within := negb fast || (Nat.leb (length before - 1 - h) (N.to_nat r2) && Nat.leb (N.to_nat th - h) (N.to_nat r2)) in
+            if Nat.leb f h && within && (e =? 0) then
+              if chain_valid links base delivered
+              then list_eqb after (base ++ delivered) && negb err_o                 (* honest, better, valid: ends on the peer's chain *)
+              else if fast then list_eqb after before && banned_o && err_o && dbeq  (* invalid blocks in fast sync: restored, banned *)
+              else true
+            else true
+        | None => true
+        end
+    | None => true
+    end in
+  code agree (spec && keep_final).
